@@ -353,8 +353,14 @@ class VLoop(_be.BaseEventLoop):
         self.errors: List[Any] = []
         self.set_exception_handler(lambda loop, ctx: self.errors.append(ctx))
 
+    # The loop's clock is the controlled clock plus an epoch of the loop's own: asyncio promises nothing about the
+    # origin of loop.time() (it need not be time.monotonic()), and every due time the schedulers hand to the loop
+    # must be expressed on the loop's clock.  Traces keep using the controlled clock, so the epoch is invisible to
+    # the oracle; scenarios alternate between epoch 0 and a loop clock far ahead of any other clock of the process.
+    epoch = 0.0
+
     def time(self):
-        return self._ds.clock
+        return self._ds.clock + self.epoch
 
     def _write_to_self(self):
         self._woken = True
@@ -395,6 +401,9 @@ UNIT = 1000          # trace times are in 1/1000 of a scenario tick (the monitor
 VARIANTS_ALL = ("own", "caller", "early", "lose", "nowake", "inline", "impatient", "spent")
 
 
+LOOP_EPOCHS = (0.0, 4.0e6, 0.0, 1.0e7)
+
+
 def make_run_one(sc: Dict[str, Any], form: str = "rel", wide: bool = False):
     """sc = {"scn": [item...], "f": {foreign thread: [op...]}, "l": [op...]} as exported by AsyncIOSched.tla (ExportScn).
     form: how a positive delay is passed - "rel" float seconds, "td" timedelta, "abs" schedule_absolute(now + d);
@@ -405,6 +414,7 @@ def make_run_one(sc: Dict[str, Any], form: str = "rel", wide: bool = False):
         def build(ds):
             from reactivex.scheduler.eventloop import AsyncIOScheduler, AsyncIOThreadSafeScheduler
             loop = VLoop(ds)
+            loop.epoch = LOOP_EPOCHS[len(json.dumps(sc, sort_keys=True)) % len(LOOP_EPOCHS)]
             ds.vloop = loop
             scheds = {"aio": AsyncIOScheduler(loop), "ts": AsyncIOThreadSafeScheduler(loop)}
             disp: Dict[int, Any] = {}
